@@ -7,7 +7,7 @@ import math
 from harness.gen import catalogue
 
 
-def make(base_name, cells=None, sagitta=None, rng=None, tension=None):
+def make(base_name, cells=None, sagitta=None, rng=None, tension=None, jitter=0.0):
     """cells: list of base-vertex cycles (default: all cells of the base tissue);
     sagitta: None (straight), a float s (every edge bent with sagitta s*|chord|, alternating side by a
     deterministic rule), or a callable (a, b) -> signed fraction."""
@@ -16,6 +16,9 @@ def make(base_name, cells=None, sagitta=None, rng=None, tension=None):
     cells = [list(c) for c in (cells if cells is not None else base["cells"])]
     used = {v for c in cells for v in c}
     pos = {v: z for v, z in pos.items() if v in used}
+    if jitter and rng is not None:
+        # distort the regular geometry: every junction-level vertex moves by up to `jitter` model units
+        pos = {v: z + complex(rng.uniform(-jitter, jitter), rng.uniform(-jitter, jitter)) for v, z in sorted(pos.items())}
     left, right = {}, {}
     for ci, cyc in enumerate(cells):
         n = len(cyc)
